@@ -153,7 +153,11 @@ class CreateNodalRestr(Contract):
         args = [list(nodes), arr(node), arr(typ), arr(idx), arr(dispf), arr(ts), Arr(T, lambda k: lift(k)), skip, n_vars]
         for a, nm in zip(args[1:6], ('map_nodes', 'map_types', 'map_idx', 'map_dispf', 'map_times')):
             H.protect[id(a)] = nm
-        return dict(args=args, R=R, T=T, idx=idx, ts=ts, node=node, type=typ, dispf=dispf, nodes=nodes, active_nodes=active, n_vars=n_vars)
+        # the nested function may refer to the enclosing set-up's `self` (the portfolio with its grid): free variable of the closure
+        dtf = H.fun('g_dt', z3.IntSort(), z3.RealSort())
+        portfolio = Obj('Portfolio', timegrid=Obj('Timegrid', T=T, I=Arr(T, lambda k: lift(k)), dt=Arr(T, lambda k: dtf(lift(k)))))
+        return dict(args=args, R=R, T=T, idx=idx, ts=ts, node=node, type=typ, dispf=dispf, nodes=nodes, active_nodes=active, n_vars=n_vars,
+                    closure=dict(self=portfolio))
 
     def loops(self, case, ctx):
         return {('portfolio:Portfolio.create_nodal_restr', 1): _StepLoop(ctx), ('portfolio:create_nodal_restr', 1): _StepLoop(ctx)}
@@ -201,7 +205,8 @@ class CreateNodalRestr(Contract):
 
 
     # ------------------------------------------------------------------ run-time twin: the nested function is extracted
-    # mechanically from the real source (ast; nothing dropped) and executed on random mappings
+    # mechanically from the real source (ast; nothing dropped; its closure variable `self` is a stand-in portfolio with a non-uniform
+    # grid) and executed on random mappings
     def schema(self, case):
         return [('n_maprows', 'int', None), ('T', 'int', None)]
 
@@ -219,7 +224,11 @@ class CreateNodalRestr(Contract):
         root = os.environ.get('PYVC_REPO', '/repo')
         src = open(os.path.join(root, 'eaopack', 'portfolio.py')).read()
         fn = next(n for n in _ast.walk(_ast.parse(src)) if isinstance(n, _ast.FunctionDef) and n.name == 'create_nodal_restr')
-        ns = {'np': np}
+        import types
+        T_ = int(P['T'])
+        dt_ = np.asarray([[1., .5, 2., .25][k % 4] for k in range(T_)])
+        # closure of the nested function: the enclosing portfolio (with a grid whose steps differ in length)
+        ns = {'np': np, 'self': types.SimpleNamespace(timegrid=types.SimpleNamespace(T=T_, I=np.arange(T_), dt=dt_), nodes={})}
         exec(compile(_ast.Module(body=[fn], type_ignores=[]), 'portfolio.py:create_nodal_restr', 'exec'), ns)
         f = ns['create_nodal_restr']
         nodes = ['nodeA', 'nodeB']
